@@ -114,7 +114,7 @@ class Explorer:
         self.invariants = invariants
         self.types = TypeParser(index, ['fpy2.number', 'fpy2.utils', 'fpy2', 'fpy2.ast', 'fpy2.analysis',
                                         'spec.c02', 'fpy2.number.context', 'fpy2.transform.path', 'fpy2.transform.cursor', 'fpy2.transform.error',
-                                        'fpy2.analysis.format_infer'])
+                                        'fpy2.analysis.format_infer', 'fpy2.number.engine'])
         # stand-in classes for external objects (Python ast nodes) live in spec modules; searched last
         self.types.default_modules += [m for m in ('spec.c06',) if index.module(m) is not None]
         self.intrinsics = Intrinsics(self)
@@ -586,7 +586,18 @@ class Explorer:
             tstr = c.params[p] if p in c.params else c.overrides[p]     # a field path listed in `overrides`
             t = self.types.parse_str(tstr, info.module.name if info else None, info.cls if info else None)
             alts = []
-            if t[0] == 'enum':
+            if t[0] == 'enum' and self.index.is_flag_enum(t[1]):
+                # a Flag enum: every combination of the single-bit members (the finite abstract domain), 0 = empty flag
+                mems = [(nm, v) for (nm, _), v in zip(self.index.enum_members(t[1]), self.enum_values(t[1]))
+                        if isinstance(v, int) and v > 0 and v & (v - 1) == 0]
+                full = 0
+                for _, v in mems:
+                    full |= v
+                for bits in range(full + 1):
+                    if bits & ~full:
+                        continue
+                    alts.append(('flag', t[1].qualname, bits, '|'.join(nm for nm, v in mems if v & bits) or '0'))
+            elif t[0] == 'enum':
                 for i, (nm, _) in enumerate(self.index.enum_members(t[1])):
                     alts.append(('enum', t[1].qualname, i, nm))
             elif t[0] == 'bool':
@@ -619,6 +630,10 @@ class Explorer:
                 cs = case[p]
                 if cs[0] == 'enum':
                     bound[p] = EnumV(self.index.find_class(cs[1]), cs[2])
+                    P.param_types[p] = (t, bound[p])
+                    continue
+                if cs[0] == 'flag':
+                    bound[p] = FlagV(self.index.find_class(cs[1]), cs[2])
                     P.param_types[p] = (t, bound[p])
                     continue
                 if cs[0] == 'bool':
